@@ -149,6 +149,7 @@ class World(object):
         self.defaults = {}      # doc id -> {element name: [(attr name, value)]}  (from the DTD the driver wrote itself)
         self.captured = {}      # element -> DTD defaults known to it (creation time)
         self.idattrs = []       # attributes that are, or once were, ID attributes (DTD type ID or setIdAttribute*)
+        self.gray_vals = {}     # doc id -> ID values ever carried by a *clone* of an ID attribute: never compared (see _gray)
         self.hidden_ids = {}    # doc id -> set of ID values carried by the harness's hidden filler elements (op idbulk)
         self.gray = None
         self.views = []         # C14
@@ -449,7 +450,7 @@ class World(object):
         return len(self._find_attr(e, name)) > 1
     def _set_value(self, a, value):
         a.value = value if value is not None else ''; a.specified = True
-        if a.isid == 'gray': a.isid = True      # (Xerces re-registers an attribute carrying the ID flag whenever its value is set)
+        if a.isid == 'gray': self.gray_vals.setdefault(a.doc.id, set()).add(a.value)
     def _remove_attr(self, e, a, restore_default=True):
         e.attrs.remove(a); a.owner = None
         self.gray = None
@@ -533,7 +534,8 @@ class World(object):
         if a.owner is not e: codes.add(NOT_FOUND)
         if codes: return Res.err(codes)
         clash = (self._name_clash(e, a.name) if a.local is None else len(self._find_attr_ns(e, a.ns, a.local)) > 1)
-        self._remove_attr(e, a); a.isid = False
+        self._remove_attr(e, a)
+        if a.isid != 'gray': a.isid = False
         return Res.ok(a, self.gray or ('removeAttributeNode on an element with two attributes of that name (DOM Level 1 / namespace-aware mix)' if clash else None))
     def getAttribute(self, e, name):
         f = self._find_attr(e, name)
@@ -555,7 +557,13 @@ class World(object):
     # =================================================================================================
     # ID attributes / getElementById (DOM3 Element.setIdAttribute*, Document.getElementById)
     # =================================================================================================
+    def _gray(self, a):
+        """a clone of an ID attribute: DOM3 does not say whether it is an ID; Xerces flags it isId() and enters it into the
+        ID table under the hash of the empty string (the value is copied afterwards), so it is unfindable until the table
+        is rehashed and shadows the original afterwards.  Every value such an attribute ever carries is left uncompared."""
+        a.isid = 'gray'; self.idattrs.append(a); self.gray_vals.setdefault(a.doc.id, set()).add(a.value)
     def _mark_id(self, a, isid):
+        if a.isid == 'gray': return
         if isid:
             if a.isid != 'gray':
                 if not a.isid: self.idattrs.append(a)
@@ -589,7 +597,7 @@ class World(object):
     def id_expect(self, doc, v):
         """what getElementById(v) on doc must return: '-' (null), a node id, or None = not determined by the specification
         (several elements with that ID, a clone of an ID attribute, an element/attribute outside the document tree)"""
-        if v in self.hidden_ids.get(doc.id, ()): return None
+        if v in self.hidden_ids.get(doc.id, ()) or v in self.gray_vals.get(doc.id, ()): return None
         seen = set(); c = []
         for a in self.idattrs:
             if a.isid and not a.dead and a.doc is doc and a.value == v and id(a) not in seen: seen.add(id(a)); c.append(a)
@@ -734,10 +742,12 @@ class World(object):
                 if a.isid:
                     # importNode registers the ID attributes of an imported element in the target document; what a *clone* of
                     # an ID attribute is, is not said by DOM3 (Xerces: isId() true, not findable) -> 'gray' = never compared
-                    ca.isid = True if importing else 'gray'; self.idattrs.append(ca)
+                    if importing and a.isid is True: ca.isid = True; self.idattrs.append(ca)
+                    else: self._gray(ca)
                 c.attrs.append(ca)
             if importing: self.add_defaults(c)
         if n.t == AT: c.specified = True
+        if n.t == AT and n.isid and not importing and c.isid is False: self._gray(c)      # directly cloned ID attribute
         if n.t == ER:
             if importing:
                 dt = self.doctype(doc)
